@@ -15,8 +15,9 @@ def post_selection(draw, n_modes, max_photons):
             if rules and draw(st.booleans()):
                 modes = list(rules[-1][0])
             else:
-                modes = sorted(draw(st.lists(st.integers(0, n_modes - 1), unique=True, min_size=1,
-                                             max_size=min(3, n_modes))))
+                size = min(n_modes, draw(st.sampled_from([1, 1, 2, 3])))     # several rules on one single mode too
+                modes = sorted(draw(st.lists(st.integers(0, n_modes - 1), unique=True, min_size=size,
+                                             max_size=size)))
             counts = draw(st.lists(st.integers(0, max(1, max_photons)), unique=True, min_size=1, max_size=3))
             rules.append([modes, sorted(counts)])
         return {"rules": rules, "multi": True}
@@ -65,8 +66,11 @@ def accepts(ps, s) -> bool:
     raise ValueError(p)
 
 
-def to_real(ps):
-    """The lightworks object / function for a description."""
+def to_real(ps, defer=None):
+    """The lightworks object / function for a description.
+    defer: a list - the rules of a PostSelection object are then not added here; one callable per rule is
+    appended to the list instead, so that the caller can hand the (still empty) object over first and complete
+    it afterwards, as a user who builds the rule set step by step would."""
     import lightworks as lw
     if ps is None:
         return None
@@ -75,7 +79,10 @@ def to_real(ps):
         for modes, counts in ps["rules"]:
             m = modes[0] if len(modes) == 1 else tuple(modes)
             c = counts[0] if len(counts) == 1 else tuple(counts)
-            obj.add(m, c)
+            if defer is None:
+                obj.add(m, c)
+            else:
+                defer.append(lambda m=m, c=c: obj.add(m, c))
         return obj
     p = ps["pred"]
     if p[0] == "max-le":
